@@ -32,6 +32,7 @@ func TestUDPQueuedDatagrams(t *testing.T) {
 		}
 		defer u.Close()
 		want := model.Agg{}
+		sentAt := map[string]int64{} // first series of a datagram -> wall clock just before it was written to the socket
 		seq := 0
 		rounds := rapid.IntRange(1, 4).Draw(t, "rounds")
 		var history []string
@@ -62,6 +63,10 @@ func TestUDPQueuedDatagrams(t *testing.T) {
 				} else {
 					history = append(history, line)
 				}
+				if i == 0 && rapid.Bool().Draw(t, "idle-before-round") {
+					time.Sleep(3 * time.Millisecond) // the receiver waits in its read for a while before this datagram arrives
+				}
+				sentAt[name] = time.Now().UnixNano()
 				if p := u.Write([]byte(line)); p != "" {
 					close(gate)
 					t.Skip("client socket: " + p)
@@ -95,8 +100,15 @@ func TestUDPQueuedDatagrams(t *testing.T) {
 		}
 		maps, _ := u.Sink.Snapshot()
 		got := model.Agg{}
+		checkedAt := time.Now().UnixNano()
 		for _, mm := range maps {
 			got.AddMap(mm)
+			// every metric carries its datagram's receive time: not before the datagram was sent, not after now
+			mm.Counters.Each(func(name, _ string, c gostatsd.Counter) {
+				if at, ok := sentAt[name]; ok && (int64(c.Timestamp) < at-int64(50*time.Microsecond) || int64(c.Timestamp) > checkedAt) {
+					vt.Fail(t, "C05:receive-time", "series %q carries timestamp %d; its datagram was written to the socket at %d (%.3f ms later) and the result was read at %d", name, c.Timestamp, at, float64(at-int64(c.Timestamp))/1e6, checkedAt)
+				}
+			})
 		}
 		for k := range got {
 			if strings.HasPrefix(k.Name, "sentinel") || strings.HasPrefix(k.Name, "round") {
